@@ -47,6 +47,29 @@ def run_suite(chk, suite, tier, workers=6):
     return r
 
 
+def run_ctx(chk, suite, tier, workers=6):
+    """Context twins (spec/MC_Ctx.tla): every case the suite just emitted is placed in other contexts (body of a function
+    value called twice, declared function, function made by a function, module member, block, loop / while / for body,
+    branch of if / if-set / match, callback of @ and of $ init f); TLC evaluates the wrapped program (the prediction that
+    is replayed) and checks the law CtxLaw on the specification.  Quick tier: one context per case, rotating; thorough:
+    all sixteen."""
+    src = os.path.join(C.WORK, "suite_" + suite, suite.replace("deep", "") + "_cases.ndjson")
+    out = C.workdir("ctx_" + suite)
+    res = C.run_tlc("MC_Ctx", "MC_Ctx_thorough.cfg" if tier == "thorough" else "MC_Ctx.cfg", workers=workers,
+                    timeout=3000, env_extra={"VERIF_IN": src, "VERIF_OUT": out}, name="ctx_%s_%s" % (suite, tier),
+                    heap="6g")
+    C.require_tlc_ok(res, "MC_Ctx on the cases of %s (CtxLaw: a program means the same in every context)" % suite)
+    chk.add_tlc("MC_Ctx[%s]" % suite, res, "context twins of the suite's cases; law CtxLaw")
+    cases = os.path.join(out, "ctx_cases.ndjson")
+    events = os.path.join(out, "events.ndjson")
+    rc, txt = C.run_vh(["lang", cases, events], timeout=3000)
+    r = json.loads(txt)
+    r["events_path"] = events
+    r["suite"] = suite
+    r["label"] = suite + "+contexts"
+    return r
+
+
 def validate_events(chk, events_path, name):
     """Trace validation: every recorded event is consumed by one action of Trace_Sound; returns the
     events the specification rejects."""
@@ -145,9 +168,9 @@ def fill_coverage(chk, results, n_events, rule):
     cov["evaluations"] = cases
     cov["distinct_nontrivial"] = sum(r["distinct_programs"] for r in results)
     cov["rule"] = rule
-    cov["by_suite"] = {r["suite"]: r["by_suite"] for r in results}
-    cov["outcome_counts"] = {r["suite"]: r["counts"] for r in results}
-    cov["mismatch_counts"] = {r["suite"]: r["mismatch_counts"] for r in results}
+    cov["by_suite"] = {r.get("label", r["suite"]): r["by_suite"] for r in results}
+    cov["outcome_counts"] = {r.get("label", r["suite"]): r["counts"] for r in results}
+    cov["mismatch_counts"] = {r.get("label", r["suite"]): r["mismatch_counts"] for r in results}
     for r in results:
         for s in r["samples"][:2]:
             chk.sample(s)
